@@ -260,7 +260,7 @@ def _update_functions_aux_data(
     aux_function_entries = _auxdata.function_entries.get(block.module)
     if (
         aux_function_entries
-        and block in aux_function_entries[function_uuid]
+        and block in aux_function_entries.get(function_uuid, ())
         and isinstance(next_block, gtirb.CodeBlock)
         and cache.in_same_function(block, next_block)
     ):
